@@ -94,11 +94,16 @@ func cmdCheck(args []string) {
 	// roots: contracts with a clause or safety tag for this property
 	done := map[string]bool{}
 	var work []string
+	var deferred []string // functions marked `tier thorough`: not verified by the quick command
 	for k, c := range e.contracts.M {
 		if c.IsIface || c.Trusted {
 			continue
 		}
 		if contractMentions(c, *prop) {
+			if c.ThoroughOnly && !cfg.thorough {
+				deferred = append(deferred, shortFuncName(k))
+				continue
+			}
 			work = append(work, k)
 		}
 	}
@@ -226,6 +231,10 @@ func cmdCheck(args []string) {
 		}
 	}
 	sort.Strings(funcs)
+	sort.Strings(deferred)
+	for _, d := range deferred {
+		assume("NOT verified by this (quick) run - long proof, discharged by the thorough command only: " + d)
+	}
 
 	// report
 	exit := 0
